@@ -6,14 +6,8 @@ the baton up at *yield points*: every operation on a stand-in primitive, every s
 thread; OS threads are switched only when another task is chosen. The schedule is data (see schedules.py) and a run is a
 deterministic function of (code, case, schedule).
 """
-import dis
 import sys
 import threading
-
-# with granularity "op" a task can also be preempted between two bytecodes that touch shared state inside ONE source line
-# (attribute and item loads/stores) - the real granularity at which CPython switches threads
-_SHARED_OPS = frozenset(dis.opmap[n] for n in ("LOAD_ATTR", "STORE_ATTR", "DELETE_ATTR", "BINARY_SUBSCR", "STORE_SUBSCR", "DELETE_SUBSCR")
-                        if n in dis.opmap)
 
 _ORIG = {}  # original Thread/BaseProcess methods (filled by dispatch.install)
 
@@ -66,8 +60,7 @@ class Task:
 class Sched:
     current = None  # the active scheduler of this process (one run at a time)
 
-    def __init__(self, chooser, sut_files, max_steps=200000, opcodes=False):
-        self.opcodes = opcodes
+    def __init__(self, chooser, sut_files, max_steps=200000):
         self.tasks = []
         self.virtual = []
         self.chooser = chooser
@@ -91,17 +84,12 @@ class Sched:
 
     def _tracer(self, frame, event, arg):
         if frame.f_code.co_filename in self.sut_files:
-            if self.opcodes:
-                frame.f_trace_opcodes = True
             return self._line_tracer
         return None
 
     def _line_tracer(self, frame, event, arg):
         if event == "line":
             self.yield_point()
-        elif event == "opcode":
-            if frame.f_code.co_code[frame.f_lasti] in _SHARED_OPS:
-                self.yield_point()
         return self._line_tracer
 
     def yield_point(self, pred=None, what=None, timed=False):
